@@ -245,8 +245,14 @@ func main() {
 			if rr.Intn(8) == 0 {
 				k = tr.last + 100
 			}
-			if !traffic(c, r, p, tr, k, func(n int) int { return rr.Intn(n) }, false) {
-				return
+			// every other round the next request follows the previous one directly (repeated / overlapping
+			// requests with no new outbound message in between)
+			if round == 0 || rr.Intn(2) == 0 {
+				if !traffic(c, r, p, tr, k, func(n int) int { return rr.Intn(n) }, false) {
+					return
+				}
+			} else {
+				c.Count("back_to_back_requests", 1)
 			}
 			b := rr.Intn(tr.last + 3)
 			e := rr.Intn(tr.last + 3)
